@@ -6,7 +6,7 @@ import vlib
 from vlib import frac_str
 
 CLAIM = {
- "text": "Proof (Lean 4): the specification of operator arithmetic is a store of finitely supported maps key -> coefficient (fermionic keys multiply by concatenation, Pauli words by the single-qubit table with phases); binary operations write only their destination by construction. Proved about the array (multiform) form for words of ANY length: the product row is the element-wise XOR of the integer codes; exchanging the factors gives the same word with the phase changed by (-1)^(sum a_x b_z + a_z b_x), hence the symplectic test of do_commute is exactly 'the symbolic products agree'; the overall do_commute answer is 'every term commutes with every term'; single-qubit product table: associativity with phases, squares to identity (complete finite tables by kernel decision). Tie to the code: history correspondence - random chains of +, -, *, scalar forms, in-place forms over a store of shared operands of mixed classes (Tangelo / openfermion FermionOperator, QubitOperator, QubitHamiltonian), every binding compared exactly (dyadic coefficients) after every operation; array form: products, collapse and commutation of random operators compared with the model and with the symbolic product.",
+ "text": "Proof (Lean 4): the specification of operator arithmetic is a store of finitely supported maps key -> coefficient (fermionic keys multiply by concatenation, Pauli words by the single-qubit table with phases); binary operations write only their destination by construction. Proved about the symbolic form: for every ring homomorphism of the coefficients with central image and every interpretation of the keys, adding a term, adding two term lists and scaling evaluate to the sum / scalar multiple of the values, and - whenever the interpretation respects the product of two single keys (concatenation of ladder strings, proved; the Pauli-word product with its phase, hypothesis discharged by the single-qubit tables) - the product of two operators evaluates to the product of their values: the canonical-form bookkeeping (sorted keys, merged coefficients, dropped zeros) never changes the operator. Proved about the array (multiform) form for words of ANY length: the product row is the element-wise XOR of the integer codes; exchanging the factors gives the same word with the phase changed by (-1)^(sum a_x b_z + a_z b_x), hence the symplectic test of do_commute is exactly 'the symbolic products agree'; the overall do_commute answer is 'every term commutes with every term'; single-qubit product table: associativity with phases, squares to identity (complete finite tables by kernel decision). Tie to the code: history correspondence - random chains of +, -, *, scalar forms, in-place forms over a store of shared operands of mixed classes (Tangelo / openfermion FermionOperator, QubitOperator, QubitHamiltonian), every binding compared exactly (dyadic coefficients) after every operation; array form: products, collapse and commutation of random operators compared with the model and with the symbolic product.",
  "note": "Trusted: Lean kernel + standard axioms; openfermion's SymbolicOperator type rules (a TypeError refusal for mixed classes is accepted, an AttributeError or a silent change of an operand is not); numpy. Coefficients are dyadic rationals so float arithmetic is exact.",
  "technique": "Lean 4 theorems on the Pauli/array algebra (all word lengths) + specification store + history correspondence with exact coefficients"}
 
